@@ -53,6 +53,15 @@ func buildBank(seed int64) (*Scenario, error) {
 	b.OPR(103, 26, price, nil)
 
 	const bankFCT = uint64(6250000000) // 62.5 pFCT = 5000 PEG
+	// a PEG request that is REJECTED when it comes up for execution (its sender moved the funds away in the
+	// block it was written in) takes no part in the bank: no yield, no refund, not counted in the requested
+	// total -- once with per-height banks (104), once with a bank row (118)
+	for i, h := range []uint32{104, 118} {
+		gone := Key("bankgone", i)
+		b.Burn(101, gone, 40*fct)
+		b.TxE(h, -1, "request whose input is gone at execution", gone, Conv(gone.FAAddress(), FCT, 40*fct, PEG))
+		b.TxE(h, int64(h), "... because the same block moves it away", gone, Xfer(gone.FAAddress(), FCT, 40*fct, users[0].FAAddress()))
+	}
 	// deterministic prefix
 	// 104: below the bank (two equal requests)
 	b.TxE(104, 105, "equal request 1", users[1], Conv(users[1].FAAddress(), FCT, 10*fct, PEG))
